@@ -2,6 +2,7 @@ import ZvbiModel.Proxy.Model
 import ZvbiModel.Proxy.Lemmas
 import ZvbiModel.Proxy.LemmasLog
 import ZvbiModel.Proxy.LemmasNF4
+import ZvbiModel.Proxy.LemmasSched
 /-!
 # Property C19 - the proxy daemon withstands faulty clients; channel control is held by one client
 
@@ -313,6 +314,43 @@ theorem token_exclusive_current (ops : List Op) (s : State Cfg.current.g) (h : r
 theorem grant_only_to_requesters_current (ops : List Op) (s : State Cfg.current.g) (h : run Cfg.current ops = .ok s) (r : Rec)
     (hr : r ∈ s.core.st.recs) (ht : r.tok ≠ .none) : r.asked = true :=
   grant_only_to_requesters Cfg.current rfl ops s h r hr ht
+
+/-! ## the scheduler -/
+
+/-- **only requesters are scheduled**, whatever the comparison chain does: the client `vbi_proxyd_channel_schedule` returns
+    is a client of the device with a valid profile at background priority -/
+theorem schedule_only_candidates (cfg : Cfg) (s : State cfg.g) (d h : Nat) (hp : (channelSchedule cfg s d).2 = some h) :
+    ∃ c ∈ s.clients, c.dev = d ∧ c.h = h ∧ (recOf s c.h).asked = true :=
+  Zvbi.Proxy.schedule_only_candidates cfg s d h hp
+
+/-- **the pick is deterministic**: it is a function of the clock and of the scheduler's view of the device's clients
+    (token state, sub-priority, min_duration, completed flag, cycle count, last start - `Cand`), nothing else -/
+theorem schedule_deterministic (cfg : Cfg) (s s' : State cfg.g) (d : Nat) (hn : s.now = s'.now)
+    (hc : (s.clients.filter (·.dev == d)).map (candOf s) = (s'.clients.filter (·.dev == d)).map (candOf s')) :
+    (channelSchedule cfg s d).2 = (channelSchedule cfg s' d).2 := by
+  have h1 : ∀ t : State cfg.g, (channelSchedule cfg t d).2 =
+      (cfg.pick t.now ((t.clients.filter (·.dev == d)).map (candOf t))).filter
+        (fun h => ((t.clients.filter (·.dev == d)).map (candOf t)).any (fun c => c.h == h && c.cand)) := by
+    intro t
+    unfold channelSchedule
+    dsimp only
+    split
+    · split <;> rfl
+    · rfl
+  rw [h1 s, h1 s', hn, hc]
+
+/-- **what the code guarantees about waiting clients, and what it does not.**  `vbi_proxyd_channel_timer_update` arms the
+    alarm only for a client that CONTROLS the channel (GRANTED / RETURNED).  A client that was just chosen is in state
+    GRANT until its message is written, so the `channel_update` that grants a free token leaves the timer disarmed
+    (`alarm (0)`); unless another message, disconnect or frame-independent event runs `channel_update` again, the
+    scheduler never re-evaluates and equal-priority requesters wait for ever (replay corpus/C19/sched-timer-not-armed.ops,
+    on the real code: one grant in 40 s with three equal requests and min_duration = 2 s).  The property does not demand
+    fairness: an observation, not a violation. -/
+theorem timer_not_armed_without_controller (g : Guards) (s : State g) (hn : ∀ c ∈ s.clients, (tokOf s c.h).controls = false) :
+    (timerUpdate s).alarmAt = none ∧ (timerUpdate s).lastAlarm = some 0 :=
+  timerUpdate_disarmed s hn
+
+example : Tok.controls .grant = false ∧ Tok.controls .granted = true := by decide
 
 /-! ## teardown -/
 
